@@ -26,5 +26,6 @@ cargo test --offline --all-features >/tmp/confirm-$NAME.t2.log 2>&1; T2=$?
 mv /tmp/$DN.rs.hold tests/$DN.rs
 cargo test --offline $FEAT --test $DN >/tmp/confirm-$NAME.mut.log 2>&1; MUT=$?
 if [ $MUT -eq 0 ]; then cargo test --offline --all-features --test $DN >/tmp/confirm-$NAME.mut.log 2>&1; MUT=$?; fi
+if [ $MUT -eq 0 ]; then cargo test --offline --test $DN >/tmp/confirm-$NAME.mut.log 2>&1; MUT=$?; fi
 echo "{\"name\":\"$NAME\",\"apply\":$AP,\"build\":$B1,\"build_all\":$B2,\"tests\":$T1,\"tests_all\":$T2,\"demo_without_patch\":$BASE,\"demo_with_patch\":$MUT,\"demo_features\":\"$FEAT\"}"
 cd /; git -C /repo worktree remove --force $WT >/dev/null 2>&1
